@@ -162,7 +162,7 @@ Lemma lex_word_mk token kind rest a f c i :
   if (f =? 2) && str_eqb token s_in then LexTok tkIN (mkLexer [] rest false f c i)
   else if (f =? 2) && str_eqb token s_do then LexTok tkDO (mkLexer [] rest true f c i)
   else if (c =? 2) && str_eqb token s_in then LexTok tkIN (mkLexer [] rest false f c true)
-  else if (a || (c =? 3)) && str_eqb token s_esac then LexTok tkESAC (mkLexer [] rest false f c i)
+  else if (a || (c =? 3)) && str_eqb token s_esac then LexTok tkESAC (mkLexer [] rest true f c false)
   else if a && assignment_shaped token then LexTok tkASSIGNMENT_WORD (mkLexer [] rest a f c i)
   else if starts_with_hash token then LexEOF (mkLexer [] rest a f c i)
   else if 0 <=? c then
@@ -326,7 +326,7 @@ Lemma lex_case rest f c i :
   Lex (mkLexer [] (kt s_case :: rest) true f c i) = LexTok tkCASE (mkLexer [] rest false (-1) 0 i).
 Proof. reflexivity. Qed.
 Lemma lex_esac_cmdstart rest f c i :
-  Lex (mkLexer [] (kt s_esac :: rest) true f c i) = LexTok tkESAC (mkLexer [] rest false (-1) (-1) i).
+  Lex (mkLexer [] (kt s_esac :: rest) true f c i) = LexTok tkESAC (mkLexer [] rest true (-1) (-1) false).
 Proof. reflexivity. Qed.
 
 (* `in` and `do` after the `for` variable, `in` after the `case` subject, `esac`
@@ -341,7 +341,7 @@ Lemma lex_case_in rest i :
   Lex (mkLexer [] (kt s_in :: rest) false (-1) 1 i) = LexTok tkIN (mkLexer [] rest false (-1) 2 true).
 Proof. reflexivity. Qed.
 Lemma lex_case_in_esac rest i :
-  Lex (mkLexer [] (kt s_esac :: rest) false (-1) 2 i) = LexTok tkESAC (mkLexer [] rest false (-1) 3 i).
+  Lex (mkLexer [] (kt s_esac :: rest) false (-1) 2 i) = LexTok tkESAC (mkLexer [] rest true (-1) 3 false).
 Proof. reflexivity. Qed.
 
 (* ---------- redirections ---------- *)
